@@ -589,7 +589,47 @@ def r20i(F):
 		out.append(Result('20.i', shared, ('ok:' if shared else 'sibling:') + 'one-connect-predicate', 'the cache-hit check and ChainPoller::look_up_previous_header use the same connectivity predicate (check_builds_on delegates to check_connects_to)', 1, where=F.where(cb.name)))
 	return out
 
+def r20j(F):
+	"""(i) mainnet difficulty: the header that may retarget is the one whose OWN height is a multiple of the retarget interval (height % 2016 == 0,
+	not (height + 1) or the parent's height); every other header must repeat its parent's bits; (ii) blocks fetched concurrently are returned
+	in the order they were requested (the start-up sync zips them with the ascending list of headers)"""
+	out = []
+	fn = POLL + 'ValidatedBlockHeader::check_builds_on'
+	fu = F.func(fn)
+	rem = []
+	for c in comparisons(fu):
+		a, b = c[4], c[5]
+		for x, y in ((a, b), (b, a)):
+			if x[0] == 'bin' and x[1] == 'Rem' and y[0] == 'const' and y[1] == 0 and x[3][0] == 'const':
+				rem.append((c, x))
+	if len(rem) != 1:
+		out.append(Result('20.j', False, 'anchor:retarget-test', 'check_builds_on: expected one `<height> % <interval> == 0` test, found %d' % len(rem), len(rem), where=F.where(fn)))
+	else:
+		c, x = rem[0]
+		terms, k = linear(x[2])
+		interval = x[3][1]
+		ok = k == 0 and len(terms) == 1 and list(terms.values()) == [1] and list(terms)[0].endswith('height') and 'previous' not in list(terms)[0] and interval == 2016 and c[3] in ('Eq', 'Ne')
+		out.append(Result('20.j', ok, ('ok:' if ok else 'boundary:') + 'retarget-at-own-height-multiple', 'the difficulty may change exactly for headers with `%s %% %s == 0` (expected the header\'s own height, interval 2016)%s' % (expr_str(x[2])[-40:], interval, '' if ok else ' - shifted by one the last header of every period may change its target fourfold and the true retarget header is refused'), 1, where=F.where(fn, fu.blocks[c[0]]['s'][c[1]][0])))
+	polls = [n for n in F.fns if n.endswith('::MultiResultFuturePoller as core::future::future::Future>::poll') and ('lightning_block_sync' in n or n.startswith('<lightning::'))]
+	if not polls:
+		out.append(Result('20.j', False, 'anchor:multi-poller', 'MultiResultFuturePoller::poll not found'))
+	for n in polls:
+		pu = F.func(n)
+		ex = Expr(pu)
+		found = []
+		for bi, si, st in pu.stmts():
+			rv = st[2]
+			if rv[0] == 'agg' and rv[1] == 'adt' and rv[3] == 'Ready' and st[1] == [0] and bi in pu.reach([0]):
+				e = ex.of_operand(rv[4][0])
+				names, base = iterator_chain(e)
+				found.append((names, expr_leaves(e)['fields']))
+		ok = bool(found) and all('collect' in names and any(x in names for x in ('drain', 'into_iter', 'iter', 'iter_mut')) and 'futures_state' in flds and not any(x in names for x in ('rev', 'sort', 'sorted')) for names, flds in found)
+		crate = 'lightning-block-sync' if 'lightning_block_sync' in n else 'lightning'
+		out.append(Result('20.j', ok, ('ok:' if ok else 'order:') + 'concurrent-results-in-request-order@' + crate, 'MultiResultFuturePoller::poll (%s) builds its result by walking the stored futures in their original order (%s)%s' % (crate, [' <- '.join(nm) for nm, fl in found], '' if ok else ' - results gathered in completion order are zipped with the ascending header list: a listener is handed a higher block before a lower one'), len(found), where=F.where(n)))
+	return out
+
 RULES = [
+	('20.j', 'retarget boundary at the header\'s own height; concurrently fetched blocks come back in request order', r20j),
 	('20.a', 'validated wrappers are built only behind the PoW / hash / merkle / witness checks', r20a),
 	('20.b', 'ChainPoller: previous header only behind validate + check_builds_on; Better only on strictly more chainwork; Common only on equal hash', r20b),
 	('20.c', 'Listen notifications come only from the ordering notifier', r20c),
